@@ -81,9 +81,9 @@ type eventCounter struct {
 	// attribute a deferred listener's updates to the branch that registers it)
 	credit map[*ssa.BasicBlock]countRange
 	// skip: callees that are not descended into
-	skip map[*ssa.Function]bool
-	memo map[*ssa.Function]*countRange
-	stack   map[*ssa.Function]bool
+	skip  map[*ssa.Function]bool
+	memo  map[*ssa.Function]*countRange
+	stack map[*ssa.Function]bool
 }
 
 func (c *Ctx) newEventCounter(isEvent func(ssa.Instruction) int, descend bool) *eventCounter {
